@@ -13,7 +13,7 @@ ROOTS = (T + "timezone::TimeZone::from_tz_data", T + "timezone::TimeZone::from_p
 def run(chk, tier):
     P = Prog("default")
     chk.configs.add("default")
-    for r in (r_absint, r_block_order, r_header_order, r_rule_boxes, r_validate, r_validate_cover, r_record_layout, r_offset_sign, r_data_indices, r_ltt_box, r_footer, r_capacity, r_header_consts):
+    for r in (r_absint, r_block_order, r_header_order, r_header_counts, r_tz_string_consumed, r_rule_boxes, r_validate, r_validate_cover, r_record_layout, r_offset_sign, r_data_indices, r_ltt_box, r_footer, r_capacity, r_header_consts):
         chk.guarded(r, P, tier)
     chk.assume("that every conforming file is accepted and decoded to exactly the written transitions/types/rule is not decided (value-level)")
     return {
@@ -560,3 +560,88 @@ def r_header_consts(chk, P, tier):
         if v[0] == "agg" and sw:
             vers[sw[-1][2]] = v[3]
     chk.expect(vers == {0: "V1", 50: "V2", 51: "V3"}, "versions", "version byte mapping %s" % vers, loc=P.loc(fn))
+
+
+def r_header_counts(chk, P, tier):
+    """the header is accepted only with type_count != 0, char_count != 0 and each of the two optional indicator counts either 0 or equal to type_count
+    (RFC 8536 3.1). Decided on the path conditions of every Ok path of Header::new: for each count the (in)equality that the clause needs must hold
+    on that path for THAT count (the terms are identified through the fields of the returned Header)"""
+    chk.rule("GUARD.header_counts", "every Ok path of Header::new has tested type_count != 0, char_count != 0, and for each of ut_local_count / std_wall_count: == 0 or == type_count", floor=4)
+    fn = T + "parser::Header::new"
+    hdr = [f["name"] for f in P.adts[T + "parser::Header"]["variants"][0]["fields"]]
+    oks = [p for p in Sym(P, fn).paths() if p.end[0] == "return" and result_variant(p.ret)[0] == "Ok"]
+    if not oks:
+        raise AnchorLost("Header::new has no Ok path")
+
+    def core(t):
+        while t[0] == "cast":
+            t = t[1]
+        return t
+
+    def truth(c):
+        v = c[2]
+        return (v != 0) if not isinstance(v, tuple) else (v[0] == "else" and 0 in v[1])
+    fails = {}
+    for p in oks:
+        agg = p.ret[4][0]
+        term = {n: core(agg[4][hdr.index(n)]) for n in ("ut_local_count", "std_wall_count", "type_count", "char_count")}
+        eq, ne = set(), set()       # pairs known equal / known different on this path
+        for c in p.conds:
+            if c[0][0] != "switch" or c[1][0] != "bin" or c[1][1] not in ("Eq", "Ne"):
+                continue
+            a, b = core(c[1][2]), core(c[1][3])
+            same = truth(c) == (c[1][1] == "Eq")
+            (eq if same else ne).add((a, b))
+            (eq if same else ne).add((b, a))
+        zero = lambda t: any(x == t and const_of(y) == 0 for x, y in eq)
+        nonzero = lambda t: any(x == t and const_of(y) == 0 for x, y in ne)
+        for n in ("type_count", "char_count"):
+            if not nonzero(term[n]):
+                fails.setdefault(n + " != 0", 0)
+                fails[n + " != 0"] += 1
+        for n in ("ut_local_count", "std_wall_count"):
+            if not (zero(term[n]) or (term[n], term["type_count"]) in eq):
+                fails.setdefault(n + " in {0, type_count}", 0)
+                fails[n + " in {0, type_count}"] += 1
+    for k in ("type_count != 0", "char_count != 0", "ut_local_count in {0, type_count}", "std_wall_count in {0, type_count}"):
+        chk.expect(k not in fails, k, "Header::new returns Ok on %d of %d paths on which `%s` was not established" % (fails.get(k, 0), len(oks), k), loc=P.loc(fn))
+
+
+def r_tz_string_consumed(chk, P, tier):
+    """a TZ rule string is accepted only if nothing follows the rule: on every Ok path of TransitionRule::from_tz_string, after the last call that advances the
+    cursor (a callee taking `&mut Cursor`), cursor.is_empty() is tested and holds"""
+    chk.rule("DOM.tz_string_consumed", "every Ok path of from_tz_string ends with cursor.is_empty() holding after the last cursor-advancing call", floor=2)
+    fn = T + "rule::TransitionRule::from_tz_string"
+    oks = [p for p in Sym(P, fn).paths() if p.end[0] == "return" and result_variant(p.ret)[0] == "Ok"]
+    if not oks:
+        raise AnchorLost("from_tz_string has no Ok path")
+
+    def advances(c):
+        if not (isinstance(c[1], str) and P.has(c[1])):
+            return False
+        return any(P.ty_s(i).startswith("&mut") and "Cursor" in P.ty_s(i) for i in P.fn(c[1]).get("inputs", []))
+
+    def truth(c):
+        v = c[2]
+        return (v != 0) if not isinstance(v, tuple) else (v[0] == "else" and 0 in v[1])
+    kinds = {}
+    for p in oks:
+        adv = [i for i, c in enumerate(p.calls) if advances(c)]
+        emp = [i for i, c in enumerate(p.calls) if isinstance(c[1], str) and c[1].endswith("Cursor::<'a>::is_empty")]
+        if not adv:
+            raise AnchorLost("from_tz_string: an Ok path without cursor-advancing calls")
+        good = False
+        if emp and emp[-1] > adv[-1]:
+            call = p.calls[emp[-1]]
+            for c in p.conds:
+                if c[0][0] == "switch" and c[1] == call:
+                    good = truth(c)
+                elif c[0][0] == "switch" and c[1][0] == "un" and c[1][1] == "Not" and c[1][2] == call:
+                    good = not truth(c)
+        shape = "Alternate" if len(adv) > 3 else "Fixed"
+        kinds.setdefault(shape, []).append(good)
+    for shape in ("Fixed", "Alternate"):
+        if shape not in kinds:
+            raise AnchorLost("from_tz_string: no Ok path of the %s form" % shape)
+        chk.expect(all(kinds[shape]), shape, "from_tz_string returns Ok for the %s form on %d of %d paths without having found the cursor empty after the last parsing step (trailing data accepted)" % (
+            shape, kinds[shape].count(False), len(kinds[shape])), loc=P.loc(fn))
